@@ -22,7 +22,7 @@ TECHNIQUE = "exhaustive fault-sequence enumeration: every outcome sequence of th
 RULE = (
     "per configuration (limit 1..4 x catching {default,class,tuple,set} x delay {None,int,float,"
     "function} x sync/async x inside/outside a scope) every reachable sequence of call outcomes "
-    "over {value, caught, subclass of caught, uncaught Exception, CancelledError, other "
+    "over {value, caught, subclass of caught (one and two levels), uncaught Exception, CancelledError, other "
     "BaseException}; non-trivial = at least one retry happened or a non-retryable error ended it"
 )
 ASSUMPTIONS = [
@@ -39,6 +39,10 @@ class Caught(Exception):
 
 class SubCaught(Caught):
     pass
+
+
+class DeepCaught(SubCaught):
+    """two inheritance levels below the caught class"""
 
 
 class Unrelated(Exception):
@@ -63,7 +67,7 @@ class BadStrCaught(Caught):
         return "BadStrCaught()"
 
 
-OUTCOMES = ["value", "caught", "subcaught", "other", "cancelled", "base", "badstr"]
+OUTCOMES = ["value", "caught", "subcaught", "other", "cancelled", "base", "badstr", "deepcaught"]
 
 
 def programs(tier: str):
@@ -155,6 +159,7 @@ def _make_exc(kind: str, k: int) -> BaseException:
     return {
         "caught": Caught,
         "subcaught": SubCaught,
+        "deepcaught": DeepCaught,
         "other": Other,
         "cancelled": asyncio.CancelledError,
         "base": Base,
@@ -269,7 +274,7 @@ def execute(program, ch: Chooser) -> Result:  # noqa: C901, PLR0912, PLR0915
             if not task.done():
                 viols.append(viol("termination", mode, "call returns", "pending"))
         # ---- reference: counter loop ----
-        caught_kinds = {"caught", "subcaught", "badstr"} | ({"other"} if catching == "default" else set())
+        caught_kinds = {"caught", "subcaught", "deepcaught", "badstr"} | ({"other"} if catching == "default" else set())
         exp_calls = 0
         terminal = False
         for rec in calls:
@@ -326,7 +331,7 @@ def execute(program, ch: Chooser) -> Result:  # noqa: C901, PLR0912, PLR0915
                     a[0] != b[0] or a[1] is not b[1] for a, b in zip(delay_calls, want_args)
                 ):
                     viols.append(
-                        viol("delay", "fn-arguments", [(k, str(e)) for k, e in want_args], [(k, str(e)) for k, e in delay_calls])
+                        viol("delay", "fn-arguments", [(k, repr(e)) for k, e in want_args], [(k, repr(e)) for k, e in delay_calls])
                     )
         obs = {
             "kinds": kinds,
